@@ -22,6 +22,8 @@ from .director import Director, find_tags
 from .events import EventLog
 from .fakes3 import FakeS3, payload
 from .io import (
+    NONSEEKABLE_FLAVORS,
+    SEEKABLE_FLAVORS,
     HookedOSUtils,
     NonSeekableSink,
     NonSeekableSource,
@@ -34,6 +36,24 @@ from .io import (
 BUCKET = 'bkt'
 SRC_BUCKET = 'srcbkt'
 TEMP_RE = re.compile(r'\.[0-9a-fA-F]{8}$')
+
+
+def dest_path(tmpdir, x):
+    """Destination path of a path download; ``name_len`` pads the base name (255 = the file-system maximum)."""
+    name = f'dst-{x.idx}'
+    n = x.spec.get('name_len')
+    if n:
+        name = name + '-' + 'n' * (n - len(name) - 1)
+    return os.path.join(tmpdir, name)
+
+
+def temp_leftovers(dest):
+    """Files beside ``dest`` that look like the library's temporary names for it (base name, possibly truncated to make
+    room, plus '.' and 8 hex digits)."""
+    d = os.path.dirname(dest)
+    base = os.path.basename(dest)
+    stem = base[:255 - 9]
+    return [n for n in os.listdir(d) if n != base and n.startswith(stem) and TEMP_RE.search(n)]
 
 
 def scratch_root():
@@ -138,14 +158,14 @@ def prepare_xfer(obs, x):
         elif src == 'seekable':
             start = t.get('start', 0)
             full = payload(7777 + x.idx, start) + x.data
-            x.src = SeekableSource(w, x.label, full, start=start, read_caps=t.get('src_caps'))
+            x.src = SEEKABLE_FLAVORS[t.get('flavor', 'declared')](w, x.label, full, start=start, read_caps=t.get('src_caps'))
         else:
-            x.src = NonSeekableSource(w, x.label, x.data, read_caps=t.get('src_caps'))
+            x.src = NONSEEKABLE_FLAVORS[t.get('flavor', 'bare')](w, x.label, x.data, read_caps=t.get('src_caps'))
     elif x.kind == 'download':
         w.s3.objects[(BUCKET, x.key)] = x.data
         dst = t.get('dst', 'path')
         if dst == 'path':
-            path = os.path.join(tmpdir, f'dst-{x.idx}')
+            path = dest_path(tmpdir, x)
             osu.labels[path] = x.label
             if t.get('preexisting'):
                 x.prev = b'previous-content-' + str(x.idx).encode()
